@@ -3,6 +3,7 @@ import json
 
 import checklib as cl
 from props import common
+from props import notesgen as NG
 
 KANA = [chr(c) for c in range(0x3041, 0x3094)] + ["ー"]
 KANJI = "猿鞭無知愛惜見居書食高静隠密不亜山川"
@@ -101,10 +102,14 @@ def gen_note(rng):
 
 
 def run(run, replay=None):
-    run.assumptions += ["the notes grammar (note_grammer.rs) and converter (converter.rs) are NOT modelled in Lean: they are exercised on the "
-                        "implementation against a reference semantics written in tools/props/c18.py (partial)",
-                        "'well-formed' SKK lines are those produced by this check's generators; candidates never contain a TAB"]
-    run.regenerate(["Dic", "DicGrammar"])
+    run.assumptions += ["the notes grammar (note_grammer.rs) and converter (converter.rs) are modelled by hand (Chokan.Model.SkkNotes); the "
+                        "dictionary-ending table form_to_skk_okuri is generated from the source (Gen/SkkNotes.lean); the model is run against "
+                        "the implementation on every notes line of this check (op skknote), and the implementation is also judged by a "
+                        "reference semantics written in tools/props/c18.py",
+                        "'well-formed' SKK lines are those produced by this check's generators; candidates and note stems of well-formed "
+                        "lines never contain a blank or TAB (mutated lines may; what they emit is then outside C18_notes_emitted_valid's "
+                        "hypothesis and only totality is required of them)"]
+    run.regenerate(["Dic", "DicGrammar", "SkkNotes"])
     if run.build_props():
         run.audit()
     rng = cl.Rng(run.seed + 18)
@@ -161,10 +166,34 @@ def run(run, replay=None):
             fails.append(("panic", {"kind": "panic", "op": ln.split(" ")[0]}, {"line": cl.from_cps(ln.split(" ", 1)[1]), "op": ln.split(" ")[0]}))
     # ---- stream 2: notes (implementation + reference semantics) -------------------------------------------------------
     notes = [gen_note(rng) for _ in range(N)]
-    nlines = ["skknote " + cl.cps(l) for l, _, _ in notes] + ["skknote " + cl.cps(l) for l in odd + arbitrary]
+    # structured lines over the whole notes grammar, one-character mutations of them, and the directed class x row x okuri table
+    rich = []
+    for _ in range(N):
+        l = NG.line(rng)
+        rich.append((l, False))
+        if rng.chance(1, 2):
+            rich.append((NG.mutate(rng, l), True))
+    directed = NG.directed()
+    extra = odd + arbitrary
+    nsrc = [l for l, _, _ in notes] + extra + [l for l, _ in rich] + directed
+    nlines = ["skknote " + cl.cps(l) for l in nsrc]
     bindir = run.build_harness(["impl_driver"])
     rc, out, err = run.run_harness(bindir, "impl_driver", input="\n".join(nlines) + "\n")
     nimpl = out.splitlines()
+    if rc != 0 or len(nimpl) != len(nlines):
+        run.failures.append(cl.Failure("infra", "impl_driver failed on notes lines (rc=%s, %d/%d replies)" % (rc, len(nimpl), len(nlines)),
+                                       detail=err[-400:]))
+        return
+    nmodel = run.run_driver(nlines)
+    ndis = []
+    if nmodel is not None:
+        for l, a, b in zip(nsrc, nimpl, nmodel):
+            if a.split(" || ")[0].strip() != b.strip():
+                ndis.append({"request": "skknote " + l, "impl": a.split(" || ")[0].strip()[:300], "model": b.strip()[:300]})
+        run.cov["model_disagreements"] = run.cov.get("model_disagreements", 0) + len(ndis)
+    stats["rich_note_lines"] = len(rich)
+    stats["directed_note_lines"] = len(directed)
+    stats["mutated_note_lines"] = sum(1 for _, m in rich if m)
     stats["note_lines"] = len(notes)
     base_verbs = []
     for (l, exp, meta), r in zip(notes, nimpl):
@@ -182,11 +211,46 @@ def run(run, replay=None):
             stats["unsupported"] += 1
         else:
             fails.append(("note-rejected", {"kind": "note-rejected", "note_kind": meta["kind"]}, {"line": l, "result": head}))
-    for l, r in zip(odd + arbitrary, nimpl[len(notes):]):
-        if r.startswith("panic"):
+    kinds = {}
+    off = len(notes)
+    tail = [(l, True) for l in extra] + rich + [(l, False) for l in directed]
+    for (l, mutated), r in zip(tail, nimpl[off:]):
+        head = r.split(" || ")[0].strip()
+        k = head.split(" ")[0]
+        kinds[k] = kinds.get(k, 0) + 1
+        if head.startswith("panic"):
             stats["panics"] += 1
-            cause = "empty-fixed-okuri" if "()" in l else "other"
-            fails.append(("panic", {"kind": "panic", "op": "skknote", "cause": cause}, {"line": l, "result": r.split(" || ")[0]}))
+            cause = "empty-fixed-okuri" if "()" in l else head.split(" ")[0][6:]
+            fails.append(("panic", {"kind": "panic", "op": "skknote", "cause": cause}, {"line": l, "result": head}))
+        elif head == "unsupported":
+            stats["unsupported"] += 1
+        elif head.startswith("some") and len(head) > 5:
+            for e in head[5:].split(" ;; "):
+                g = cl.from_cps(e.split(" ; ")[0])
+                parts = g.split("\t")
+                # outside the hypothesis of C18_notes_emitted_valid: a blank or TAB in the written form (mutated lines only)
+                if mutated and (len(parts) != 3 or " " in parts[1]):
+                    stats["blank_stem_skipped"] = stats.get("blank_stem_skipped", 0) + 1
+                    continue
+                emitted.append((g, l))
+                if not mutated:
+                    # C18_notes_faithful on the implementation: reading / written form are non-empty and share a prefix relation with
+                    # the headword / one of the line's stems (the converter only appends okuri kana and cuts the dictionary ending)
+                    hw = ""
+                    for ch in l:
+                        if ch in KANA:
+                            hw += ch
+                        else:
+                            break
+                    stems = [seg.split(";")[0] for seg in l.split("/")[1:] if ";" in seg]
+                    rd, st = parts[0], parts[1]
+                    okr = bool(rd) and (rd.startswith(hw) or hw.startswith(rd))
+                    oks = bool(st) and any(st.startswith(x) or x.startswith(st) for x in stems if x)
+                    stats["faithful_checks"] = stats.get("faithful_checks", 0) + 1
+                    if not (okr and oks):
+                        fails.append(("note-unfaithful", {"kind": "note-unfaithful", "note_kind": "rich"},
+                                      {"line": l, "emitted": g, "headword": hw, "stems": stems}))
+    stats["note_result_kinds"] = kinds
     # ---- everything emitted must be a valid line of the dictionary text format, reading back the same -----------------------------
     em = list(dict.fromkeys(emitted))
     plines = ["parse " + cl.cps(g) for g, _ in em]
@@ -231,10 +295,17 @@ def run(run, replay=None):
     if dis and not fails:
         run.failures.append(cl.Failure("correspondence", "model Chokan.Model.Skk and the SKK parsers disagree on %d replies, e.g. %s"
                                        % (len(dis), json.dumps(dis[0], ensure_ascii=False)[:400])))
+    if ndis:
+        # the C18 notes theorems are about a model the implementation no longer follows; the oracle failures above (if any) carry the
+        # failing input, otherwise the disagreeing lines are named in the replay file and the line ends no-failing-input-found
+        run.failures.append(cl.Failure("correspondence",
+                                       "model Chokan.Model.SkkNotes and parse_note + to_entries disagree on %d notes lines, e.g. %s"
+                                       % (len(ndis), json.dumps(ndis[0], ensure_ascii=False)[:400]),
+                                       detail=json.dumps(ndis[:5], ensure_ascii=False)))
     run.cov.update({"evaluations": len(lines) + len(nlines) + len(plines) + len(wl),
                     "distinct_nontrivial": len({l for l, _ in skk}) + len({l for l, _, _ in notes}),
                     "rule": "well-formed SKK-JISYO lines (reading, optional okuri letter, 1–3 candidates with/without annotations) through "
-                            "the four parsers on both sides; well-formed notes lines of 10 kinds (a third of them with a reading that ends in the kana of the dictionary-form ending) (all noun tags, base godan / ichidan verbs, "
+                            "the four parsers on both sides; notes lines on both sides (model Chokan.Model.SkkNotes): structured lines over the whole notes grammar, their one-character mutations, and the directed table of every class x row x okuri shape x stem shape; well-formed notes lines of 10 kinds (a third of them with a reading that ends in the kana of the dictionary-form ending) (all noun tags, base godan / ichidan verbs, "
                             "fixed and class okuri, affix classes, derived entries, multi-speech entries with in-entry notes) against a "
                             "reference semantics; odd and arbitrary Unicode lines for totality; every emitted line re-read by the real "
                             "dictionary reader; okuri row of base verbs. non-trivial = well-formed line; distinct by line",
